@@ -15,6 +15,27 @@ Extraction "hubm.ml" stepl init observe erase run_labels finished.
 """
 
 
+# ------------------------------------------------------------------ payloads
+# The model's messages are numbers; on the implementation message m travels as pay(m).  Every second id gets a
+# payload that is falsy / looks like "nothing" in Python ("" and "0", whitespace, ...): the hub must treat the
+# payload as opaque — "no message" and "a message with an empty payload" are different outcomes
+# (["msg", ""] vs "empty").  pay is injective, unpay its inverse (-1 for a payload nobody sent).
+SPECIAL = ["", "0", " ", "\n", "00", "\t", "False", "None", "0.0", "[]", "{}", "null", "  ", "-0", "0x0"]
+
+
+def pay(m):
+    if m % 2 == 0 and 0 < m // 2 <= len(SPECIAL):
+        return SPECIAL[m // 2 - 1]
+    return str(m)
+
+
+UNPAY = {pay(m): m for m in range(1, 200)}
+
+
+def unpay(x):
+    return UNPAY.get(x, -1)
+
+
 # ------------------------------------------------------------------ configurations
 # thread: dict(key=[a, b, i] (ints), cb=bool, ops=[["connect"] | ["send", m:int] | ["recv"] | ["recvnb"] | ["disconnect"]])
 def impl_cfg(cfg):
@@ -22,7 +43,7 @@ def impl_cfg(cfg):
     out = []
     for th in cfg:
         a, b, i = th["key"]
-        ops = [[o[0], str(o[1])] if o[0] == "send" else [o[0]] for o in th["ops"]]
+        ops = [[o[0], pay(o[1])] if o[0] == "send" else [o[0]] for o in th["ops"]]
         out.append(dict(key=[f"n{a}", f"n{b}", i], cb=th["cb"], ops=ops))
     return out
 
@@ -121,13 +142,13 @@ def canon_impl(run, cfg):
             if r == "blocked":
                 continue
             done += 1
-            res.append(["msg", int(r[1])] if isinstance(r, list) else r)
-        ths.append(dict(res=res, left=len(cfg[t]["ops"]) - done, store=[int(x) for x in th["store"]], lost=th["lost"]))
+            res.append(["msg", unpay(r[1])] if isinstance(r, list) else r)
+        ths.append(dict(res=res, left=len(cfg[t]["ops"]) - done, store=[unpay(x) for x in th["store"]], lost=th["lost"]))
 
     def k3(k):
         return [int(k[0][1:]), int(k[1][1:]), k[2]]
 
-    q = sorted([[k3(json.loads(k.replace("'", '"'))), [int(x) for x in v]] for k, v in o["queues"].items()])
+    q = sorted([[k3(json.loads(k.replace("'", '"'))), [unpay(x) for x in v]] for k, v in o["queues"].items()])
     return dict(threads=ths, queues=q, open=sorted(k3(k) for k in o["open"]), rem=sorted(k3(k) for k in o["rem"]))
 
 
@@ -216,7 +237,7 @@ def oracle(run, cfg):
     res = run.results          # per thread: (op index, result, start stamp, end stamp, start log, end log)
     final_q = {}
     for k, v in dict.items(run.hub._messages):
-        final_q[(int(k[0][1:]), int(k[1][1:]), k[2])] = [int(x) for x in list.__iter__(v)]
+        final_q[(int(k[0][1:]), int(k[1][1:]), k[2])] = [unpay(x) for x in list.__iter__(v)]
     final_open = {(int(k[0][1:]), int(k[1][1:]), k[2]) for k in set.__iter__(run.hub._open_sockets)}
 
     for k, rts in by_key.items():
@@ -227,8 +248,8 @@ def oracle(run, cfg):
         sends = [(cfg[s]["ops"][i][1], st, en) for (i, x, st, en, *_r) in res[s] if cfg[s]["ops"][i][0] == "send" and x == "ok"]
         sent = [m for m, _, _ in sends]
         has_recv_ops = any(o[0] in ("recv", "recvnb") for o in cfg[r]["ops"])
-        polled = [int(x[1]) for (_i, x, *_r) in res[r] if isinstance(x, list)]
-        stored = [int(x) for x in run.storage[r]]
+        polled = [unpay(x[1]) for (_i, x, *_r) in res[r] if isinstance(x, list)]
+        stored = [unpay(x) for x in run.storage[r]]
         if cfg[r]["cb"] and has_recv_ops and stored and polled:
             continue      # callback deliveries and explicit polls interleave: no single received sequence to observe
         got = stored if (cfg[r]["cb"] and not polled) else polled
@@ -262,7 +283,7 @@ def oracle(run, cfg):
         th = cfg[rts[0]]
         if th["cb"] and not any(o[0] in ("recv", "recvnb", "disconnect") for o in th["ops"]) and final_q.get(k):
             bad.append(("stranded", f"callback receiver {list(k)} (thread {rts[0]}) never disconnected, its callback got "
-                                    f"{[int(x) for x in run.storage[rts[0]]]} but {final_q[k]} sit undelivered in the hub queue"))
+                                    f"{[unpay(x) for x in run.storage[rts[0]]]} but {final_q[k]} sit undelivered in the hub queue"))
     for t, th in enumerate(cfg):
         if run.status[t] == "blocked" and run.end_reason == "quiescent":
             i = res[t][-1][0]
@@ -308,3 +329,99 @@ def run_impl(cfg, chooser, mode="line", trace_socket_py=False):
     r = hs.Run(impl_cfg(cfg), trace_socket_py=trace_socket_py)
     r.execute(chooser, mode=mode)
     return r
+
+
+# ------------------------------------------------------------------ broadcast channels (implementation side only)
+# thread: dict(kind="bc", app=a, remotes=[...], ops=[["bconnect"] | ["bsend", m] | ["brecv"] | ["bclose"]])
+#      or a plain thread-socket thread as above (key=[a, b, 0]).  No model counterpart: a broadcast endpoint is
+#      several sockets driven by one thread; its executions are judged by the oracle only.
+def gen_bcast(rng):
+    mid = [0]
+
+    def fresh():
+        mid[0] += 1
+        return mid[0]
+
+    shape = rng.choice(["all", "all", "peers", "peers", "peers"])
+    if shape == "all":
+        n = rng.choice([2, 2, 3])
+        sends = [rng.randint(0, 2) for _ in range(n)]
+        cfg = []
+        for a in range(n):
+            incoming = sum(sends[b] for b in range(n) if b != a)
+            nrecv = max(0, min(3, incoming + rng.choice([0, 0, -1, 1])))
+            body = [["bsend", None] for _ in range(sends[a])] + [["brecv"] for _ in range(nrecv)]
+            rng.shuffle(body)
+            body = [["bsend", fresh()] if o[0] == "bsend" else o for o in body]
+            cfg.append(dict(kind="bc", app=a, remotes=[b for b in range(n) if b != a],
+                            ops=[["bconnect"]] + body + ([["bclose"]] if rng.random() < 0.5 else [])))
+    else:
+        # a broadcast receiver polling 1-2 peers that are plain sockets: they send and (mostly) close
+        npeer = rng.choice([1, 1, 2])
+        total = 0
+        cfg = [None]
+        for p in range(1, npeer + 1):
+            k = rng.randint(1, 2)
+            total += k
+            cfg.append(dict(key=[p, 0, 0], cb=False,
+                            ops=[["connect"]] + [["send", fresh()] for _ in range(k)] +
+                                ([["disconnect"]] if rng.random() < 0.8 else [])))
+        nrecv = max(1, min(4, total + rng.choice([0, 0, 0, -1, 1])))
+        cfg[0] = dict(kind="bc", app=0, remotes=list(range(1, npeer + 1)),
+                      ops=[["bconnect"]] + [["brecv"] for _ in range(nrecv)])
+    return shape, cfg
+
+
+def impl_cfg_bc(cfg):
+    out = []
+    for th in cfg:
+        if th.get("kind") == "bc":
+            ops = [[o[0], pay(o[1])] if o[0] == "bsend" else [o[0]] for o in th["ops"]]
+            out.append(dict(kind="bc", app=f"n{th['app']}", remotes=[f"n{b}" for b in th["remotes"]], cb=False, ops=ops))
+        else:
+            out += impl_cfg([th])
+    return out
+
+
+def run_impl_bc(cfg, chooser, trace_socket_py=False):
+    r = hs.Run(impl_cfg_bc(cfg), trace_socket_py=trace_socket_py, max_steps=12000)
+    r.execute(chooser, mode="line")
+    return r
+
+
+def oracle_bcast(run, cfg):
+    """Every message handed to the hub for a receiver is received exactly once, per-sender order preserved;
+    a receiver that is still listening (blocked in a receive) has nothing pending."""
+    bad = [("harness-error", e) for e in run.errors]
+    for t in range(len(cfg)):
+        for z in run.results[t]:
+            if z[1] in ("indexerr", "keyerr", "runtime"):
+                bad.append(("op-crashed", f"thread {t} op {z[0]} {cfg[t]['ops'][z[0]]} raised {z[1]}"))
+    final_q = {}
+    for k, v in dict.items(run.hub._messages):
+        final_q[(k[0], k[1], k[2])] = list(list.__iter__(v))
+    complete = run.end_reason in ("done", "quiescent")
+    for t, th in enumerate(cfg):
+        res = run.results[t]
+        blocked_in_recv = (run.status[t] == "blocked" and run.end_reason == "quiescent"
+                           and th["ops"][res[-1][0]][0] in ("brecv", "recv"))
+        if th.get("kind") == "bc":
+            streams = {b: [x[2] for (_i, x, *_r) in res if isinstance(x, list) and x[0] == "bmsg" and x[1] == f"n{b}"]
+                       for b in th["remotes"]}
+            me = th["app"]
+        else:
+            me, b0, _ = th["key"]
+            streams = {b0: [x[1] for (_i, x, *_r) in res if isinstance(x, list) and x[0] == "msg"]}
+        for b, got in streams.items():
+            key = (f"n{me}", f"n{b}", 0)
+            sent = run.appended.get(key, [])
+            left = final_q.get(key, [])
+            show = lambda l: [unpay(x) for x in l]
+            if got != sent[:len(got)]:
+                bad.append(("bcast-order", f"node {me} received {show(got)} from node {b}, which sent {show(sent)}"))
+            elif complete and got + left != sent:
+                bad.append(("bcast-exactly-once", f"node {me}: received {show(got)} + queued {show(left)} != sent by node {b} {show(sent)}"))
+            elif blocked_in_recv and left:
+                bad.append(("bcast-listening", f"node {me} (thread {t}) is still blocked in its receive although "
+                                               f"{show(left)} from node {b} is pending in the hub: it will never be received"))
+    return bad
